@@ -584,6 +584,10 @@ func VerifyEvidence(doc *document.Document, evidence *document.ChipAuthEvidence)
 	sscInit := big.NewInt(1)
 	if len(evidence.SmSsc) > 0 {
 		sscInit.Sub(new(big.Int).SetBytes(evidence.SmSsc), big.NewInt(1))
+		if sscInit.Sign() < 0 {
+			// NB FillBytes uses the absolute value, so SSC=0 would otherwise be treated as SSC=2
+			return nil, fmt.Errorf("[VerifyEvidence] SmSsc must not be zero")
+		}
 	}
 	ssc := make([]byte, len(sm.SSC()))
 	if len(sscInit.Bytes()) > len(ssc) {
